@@ -63,7 +63,9 @@ def progress(name, src, threads, R, tested, cflags=(), pre=('prologue',), unwind
              unwind=unwind, tso=tso, timeout=timeout, rt_defines={'RT_NGHOST': 64}, unwind_fn=dict(unwind_fn or {}),
              solo=dict(slots=slots * solo_turns, turns=1), require_done='assert_slots', done_slots=slots,
              no_wait_slots=slots if no_wait else [], deadlock_check=False, witnesses=['end of harness reachable'],
-             desc=desc, bounds=dict(T=len(ths), R=R, U=unwind, B=tso, tested=list(tested), others='suspended wherever the symbolic prefix left them'))
+             desc=desc, bounds=dict(T=len(ths), R=R, U=unwind, B=tso, tested=list(tested), others='suspended wherever the symbolic prefix left them'),
+             # a loop of the tested operation that iterates more than the bound within one uninterrupted turn never completes alone
+             unwind_assert_fn='^T(%s)_run\\.' % '|'.join(str(x) for x in sorted(set(slots))))
     if extra:
         d.update(extra)
     return [d]
